@@ -38,6 +38,33 @@ def openText (buffering : Int) (mode : Str) (existing : Option Str) : Except Err
     .ok { os := [], pending := [], lineBuffering := buffering == 1, closed := false }
   else .error .osError
 
+/-- what `open()` makes of the mode string of a sink (exactly one of a / w / x; `r` cannot be written to) -/
+inductive OpenMode where
+  | append | truncate | exclusive
+  deriving DecidableEq, Repr
+
+def parseMode (mode : Str) : Option OpenMode :=
+  if mode.contains 'a' then some .append
+  else if mode.contains 'w' then some .truncate
+  else if mode.contains 'x' then some .exclusive
+  else none
+
+/-- `open(path, mode, buffering)` for a parsed mode: `a` keeps what is there, `w` truncates, `x` refuses an
+existing file; `buffering=1` selects line buffering, any other non-zero value block buffering -/
+def openMode (buffering : Int) (mode : OpenMode) (existing : Option Str) : Except Err TextFile :=
+  if buffering == 0 then .error .valueError
+  else match mode, existing with
+    | .append, e => .ok { os := e.getD [], pending := [], lineBuffering := buffering == 1, closed := false }
+    | .truncate, _ => .ok { os := [], pending := [], lineBuffering := buffering == 1, closed := false }
+    | .exclusive, none => .ok { os := [], pending := [], lineBuffering := buffering == 1, closed := false }
+    | .exclusive, some _ => .error .osError
+
+/-- what is on disk at the path right after a successful `open` -/
+def OpenMode.keeps (mode : OpenMode) (existing : Option Str) : Str :=
+  match mode with
+  | .append => existing.getD []
+  | _ => []
+
 namespace TextFile
 
 def flush (f : TextFile) : TextFile :=
@@ -117,6 +144,15 @@ def runStreamOp (m : Str) (s : Stream) : StreamOp → Stream
 def Stream.sinkWrite (s : Stream) (m : Str) : Stream :=
   Gen.streamWriteOps.foldl (runStreamOp m) s
 
+/-- `StreamSink.stop()`: how many times the stream's own `stop()` gets called, given the `_stoppable`
+flag decided in `__init__` – interprets the GENERATED statement list -/
+def runStreamStopOp (stoppable : Bool) (n : Nat) : StreamStopOp → Nat
+  | .stopIfStoppable => if stoppable then n + 1 else n
+  | .stop => n + 1
+
+def streamStopCalls (stoppable : Bool) (n : Nat) : Nat :=
+  Gen.streamStopOps.foldl (runStreamStopOp stoppable) n
+
 /-! ### file sink -/
 
 structure FileSink where
@@ -128,6 +164,8 @@ structure FileSink where
   hasRetention : Bool
   compressions : Nat          -- calls of the compression function
   retentions : Nat            -- calls of the retention function
+  buffering : Int             -- `self._kwargs["buffering"]`: every `open()` of this sink uses it
+  mode : OpenMode             -- `self._kwargs["mode"]`
   deriving Repr, DecidableEq
 
 /-- primitive steps of `FileSink.write` / `_terminate_file`; a crash may fall between any two -/
@@ -138,10 +176,18 @@ inductive Prim where
   | endOfLife (isRotating : Bool)
   | create
   | fwrite (m : Str)
+  | reopenMoved         -- `watch=True`: somebody moved the file away; `_reopen_if_needed` closes the stale
+                        --   object (its buffer goes to the moved file) and creates a new file at the path
   deriving Repr, DecidableEq
 
 def openDefault (existing : Option Str) : Option TextFile :=
   match openText Gen.fileBuffering Gen.fileMode existing with
+  | .ok f => some f
+  | .error _ => none
+
+/-- `open(path, **self._kwargs)` as `_create_file` does it: with the sink's OWN buffering and mode -/
+def FileSink.reopen (s : FileSink) : Option TextFile :=
+  match openMode s.buffering s.mode s.atPath with
   | .ok f => some f
   | .error _ => none
 
@@ -153,7 +199,7 @@ def runPrim (s : FileSink) : Prim → FileSink
   | .openIfNone =>
     match s.file with
     | some _ => s
-    | none => { s with file := openDefault s.atPath, atPath := if (openDefault s.atPath).isSome then none else s.atPath }
+    | none => { s with file := s.reopen, atPath := if s.reopen.isSome then none else s.atPath }
   | .closeIfOpen =>
     match s.file with
     | none => s
@@ -172,18 +218,32 @@ def runPrim (s : FileSink) : Prim → FileSink
   | .create =>
     match s.file with
     | some _ => s
-    | none => { s with file := openDefault s.atPath, atPath := if (openDefault s.atPath).isSome then none else s.atPath }
+    | none => { s with file := s.reopen, atPath := if s.reopen.isSome then none else s.atPath }
   | .fwrite m =>
     match s.file with
     | some f => { s with file := some (f.write m) }
     | none => s
+  | .reopenMoved =>
+    match s.file with
+    | none => s
+    | some f =>
+      let f' := Gen.closeFileOps.foldl runCloseOp f
+      if f'.closed then
+        let s1 := { s with rotated := s.rotated ++ [f'.os], file := none, atPath := none }
+        { s1 with file := s1.reopen }
+      else s
 
 def runPrims (s : FileSink) (ps : List Prim) : FileSink := ps.foldl runPrim s
 
 /-- `_terminate_file(is_rotating)` -/
-def terminatePrims (isRot : Bool) : List Prim :=
-  (if Gen.terminateClosesOpenFile then [.closeIfOpen] else []) ++ (if isRot then [.rename] else []) ++
-  [.endOfLife isRot] ++ (if isRot then [.create] else [])
+def termOpPrims (isRot : Bool) : TermOp → List Prim
+  | .closeIfOpen => [.closeIfOpen]
+  | .renameIfRotating => if isRot then [.rename] else []
+  | .endOfLife => [.endOfLife isRot]
+  | .createIfRotating => if isRot then [.create] else []
+
+/-- the steps in the order the source has them (GENERATED `terminateOps`) -/
+def terminatePrims (isRot : Bool) : List Prim := (Gen.terminateOps.map (termOpPrims isRot)).flatten
 
 def writeOpPrims (rotDue : Bool) (m : Str) : WriteOp → List Prim
   | .openIfNone => [.openIfNone]
@@ -195,6 +255,15 @@ def writeOpPrims (rotDue : Bool) (m : Str) : WriteOp → List Prim
 def writePrims (rotDue : Bool) (m : Str) : List Prim :=
   (Gen.fileWriteOps.map (writeOpPrims rotDue m)).flatten
 
+/-- `FileSink.write` of a sink with `watch=True`; `moved` = the verdict of the `os.stat` comparison in
+`_reopen_if_needed` (an oracle: what other processes did to the path) -/
+def writeOpPrimsW (moved rotDue : Bool) (m : Str) : WriteOp → List Prim
+  | .reopenIfWatched => if moved then [.reopenMoved] else []
+  | op => writeOpPrims rotDue m op
+
+def writePrimsW (moved rotDue : Bool) (m : Str) : List Prim :=
+  (Gen.fileWriteOps.map (writeOpPrimsW moved rotDue m)).flatten
+
 def stopPrims : List Prim :=
   match Gen.fileStopTerminate with
   | some isRot => terminatePrims isRot
@@ -202,14 +271,31 @@ def stopPrims : List Prim :=
 
 namespace FileSink
 
-/-- `FileSink(path, …)` with `delay=False` on a path whose content is `existing` -/
+/-- the attributes before any file is opened -/
+def blank (existing : Option Str) (rot comp ret : Bool) (buffering : Int) (mode : OpenMode) : FileSink :=
+  { rotated := [], atPath := existing, file := none, hasRotation := rot, hasCompression := comp,
+    hasRetention := ret, compressions := 0, retentions := 0, buffering := buffering, mode := mode }
+
+/-- `FileSink(path, …, mode=…, buffering=…, delay=…)` on a path whose content is `existing`: whether the
+file is opened at once is the GENERATED decision `initOpens` -/
+def newWith (existing : Option Str) (rot comp ret : Bool) (buffering : Int) (mode : OpenMode) (delay : Bool) : FileSink :=
+  if Gen.initOpens delay then runPrim (blank existing rot comp ret buffering mode) .openIfNone
+  else blank existing rot comp ret buffering mode
+
+/-- `FileSink(path, …)` with the GENERATED defaults of `mode` / `buffering` and `delay=False` -/
 def new (existing : Option Str) (rot comp ret : Bool) : FileSink :=
-  runPrim { rotated := [], atPath := existing, file := none, hasRotation := rot, hasCompression := comp,
-            hasRetention := ret, compressions := 0, retentions := 0 } .openIfNone
+  match parseMode Gen.fileMode with
+  | some m => newWith existing rot comp ret Gen.fileBuffering m false
+  | none => { rotated := [], atPath := existing, file := none, hasRotation := rot, hasCompression := comp,
+              hasRetention := ret, compressions := 0, retentions := 0, buffering := Gen.fileBuffering, mode := .append }
 
 def write (s : FileSink) (rotDue : Bool) (m : Str) : FileSink := runPrims s (writePrims (rotDue && s.hasRotation) m)
 
 def stop (s : FileSink) : FileSink := runPrims s stopPrims
+
+/-- `write` on a `watch=True` sink -/
+def writeW (s : FileSink) (moved rotDue : Bool) (m : Str) : FileSink :=
+  runPrims s (writePrimsW moved (rotDue && s.hasRotation) m)
 
 /-- the files on disk (contents), oldest first, as a reader finds them after the process died -/
 def disk (s : FileSink) : List Str :=
@@ -241,20 +327,28 @@ def Sink.write (k : Sink) (c : Call) : Sink :=
 
 def Sink.stop : Sink → Sink
   | .file f => .file f.stop
-  | .stream s st n => .stream s st (if st then n + 1 else n)
+  | .stream s st n => .stream s st (streamStopCalls st n)
 
 /-- what travels through the queue of an enqueued handler -/
 inductive QItem where
   | msg (c : Call)     -- a `Message` (a `str`: falsy iff its text is empty)
   | confirm            -- `True`, put by `complete()`
   | sentinel           -- `None`, put by `stop()`
+  | poison             -- a message whose record cannot be un-pickled: `queue.get()` raises in the worker
   deriving Repr, DecidableEq
 
 /-- one iteration of the worker loop on one item: `none` = the loop (and the thread) ends,
 `some sink` = it goes on with that sink -/
 def workerIter : List WorkerOp → Sink → QItem → Option Sink
   | [], k, _ => some k
-  | .get :: r, k, it => workerIter r k it
+  | .get :: r, k, it =>
+    match it with
+    | .poison => some k            -- reported, `continue`: the item is lost, the loop goes on
+    | _ => workerIter r k it
+  | .getBreakOnError :: r, k, it =>
+    match it with
+    | .poison => none              -- the error ends the loop (and the thread)
+    | _ => workerIter r k it
   | .breakIfNone :: r, k, it =>
     match it with
     | .sentinel => none
@@ -264,6 +358,7 @@ def workerIter : List WorkerOp → Sink → QItem → Option Sink
     | .sentinel => none
     | .msg c => if c.2.isEmpty then none else workerIter r k it
     | .confirm => workerIter r k it
+    | .poison => workerIter r k it
   | .confirmIfTrue :: r, k, it =>
     match it with
     | .confirm => some k
@@ -282,6 +377,21 @@ def workerRun (ops : List WorkerOp) : Sink → List Call → Sink × List Call
     | some k' => workerRun ops k' r
     | none => (k, r)
 
+/-- the worker thread over ANY items (messages, confirmation tokens, items that cannot be un-pickled):
+the sink it leaves and the items it never read -/
+def workerRunQ (ops : List WorkerOp) : Sink → List QItem → Sink × List QItem
+  | k, [] => (k, [])
+  | k, it :: r =>
+    match workerIter ops k it with
+    | some k' => workerRunQ ops k' r
+    | none => (k, r)
+
+/-- the messages among queue items, in order -/
+def msgsOf : List QItem → List Call
+  | [] => []
+  | .msg c :: r => c :: msgsOf r
+  | _ :: r => msgsOf r
+
 structure Handler where
   enqueue : Bool
   owner : Bool              -- `stop()` runs in the process that created the handler
@@ -291,6 +401,7 @@ structure Handler where
   sentinel : Bool           -- `None` has been put on the queue
   joined : Bool             -- the worker thread has been joined
   hung : Bool               -- `join()` on a worker that will never see the sentinel
+  workerDead : Bool := false -- the worker thread has ended before `stop()` (a sink raised a `BaseException`)
   deriving Repr, DecidableEq
 
 /-- one statement of `Handler.stop`; the Bool component of the state is "stop() has returned" -/
@@ -302,7 +413,10 @@ def runStopOp (st : Handler × Bool) (op : Bool × StopOp) : Handler × Bool :=
     | .returnIfNotOwner => (h, !h.owner)
     | .putSentinel => ({ h with sentinel := true }, false)
     | .joinWorker =>
-      if h.sentinel then
+      if h.workerDead then
+        -- `join()` on a thread that has ended returns at once; nobody reads the queue any more
+        ({ h with joined := true }, false)
+      else if h.sentinel then
         -- the worker (GENERATED loop body) takes the queued messages in FIFO order, then the sentinel
         let (k, unread) := workerRun Gen.workerOps h.sink h.queue
         if unread.isEmpty && (workerIter Gen.workerOps k .sentinel).isSome then
@@ -315,6 +429,49 @@ def runStopOp (st : Handler × Bool) (op : Bool × StopOp) : Handler × Bool :=
       (h, false)
     | .closeQueue => (h, false)
     | .sinkStop => ({ h with sink := h.sink.stop }, false)
+
+/-- the tail of `Handler.emit` (GENERATED statement list) for one formatted message; Bool = "returned" -/
+def runEmitAct (c : Call) (h : Handler) : EmitAct → Handler
+  | .queuePut => { h with queue := h.queue ++ [c] }
+  | .sinkWrite => { h with sink := h.sink.write c }
+
+def runEmitOp (c : Call) (st : Handler × Bool) : EmitOp → Handler × Bool
+  | .returnIfStopped => if st.2 then st else (st.1, st.1.stopped)
+  | .ifEnqueue yes no => if st.2 then st else ((if st.1.enqueue then yes else no).foldl (runEmitAct c) st.1, false)
+  | .act a => if st.2 then st else (runEmitAct c st.1 a, false)
+
+/-- `Handler.emit` from the point where the text is formatted: what the logging call has done with it
+when it returns -/
+def Handler.emit (h : Handler) (c : Call) : Handler := (Gen.emitOps.foldl (runEmitOp c) (h, false)).1
+
+/-- what can happen to a handler between `add()` and the end of the program: a logging call, or the
+worker thread (enqueue) taking the oldest queued message -/
+inductive Ev where
+  | log (c : Call)
+  | worker
+  deriving Repr, DecidableEq
+
+def Handler.workerStep (h : Handler) : Handler :=
+  if h.enqueue && !h.workerDead then
+    match h.queue with
+    | [] => h
+    | c :: r =>
+      match workerIter Gen.workerOps h.sink (.msg c) with
+      | some k => { h with sink := k, queue := r }
+      | none => { h with queue := r, workerDead := true }
+  else h
+
+def Handler.step (h : Handler) : Ev → Handler
+  | .log c => h.emit c
+  | .worker => h.workerStep
+
+def Handler.run (h : Handler) (evs : List Ev) : Handler := evs.foldl Handler.step h
+
+/-- the texts the program's logging calls handed to this handler, in order -/
+def logged : List Ev → List Call
+  | [] => []
+  | .log c :: r => c :: logged r
+  | .worker :: r => logged r
 
 def Handler.stop (h : Handler) : Handler := (Gen.handlerStopOps.foldl runStopOp (h, false)).1
 
